@@ -100,6 +100,18 @@ def gen(chk):
                 for sgn in (1, -1):
                     chk.add('fe_op %s %s %s #0 #0 #0' % (nm('inv'), h32((sgn * v) % P), h32(0)), 'fe_inv_top_limb_only')
                     chk.add('sc_op %s %s %s #0' % (nm('inverse'), h32((sgn * v) % N), h32(0)), 'sc_inverse_top_limb_only')
+    # limb blind spots: values that differ from 0 (mod p) only in ONE limb of the 5x52 / 10x26 representation, i.e. p - d*2^(w*k):
+    # a zero test or an equality that forgets limb k calls them zero / equal
+    for w, nl in ((52, 5), (26, 10)):
+        for k in range(nl):
+            for d in (1, 2, 1 << (w - 1), (1 << w) - 1, r.bits(w) | 1):
+                if d << (w * k) >= P: continue
+                v = P - (d << (w * k))
+                for ra in (0, 1, 3):
+                    chk.add('fe_op %s %s %s #%d #0 #0' % (nm('ntz'), h32(v), h32(0), ra), 'fe_ntz_one_limb_from_zero')
+                a = fe_val(r) % P; b = (a + (d << (w * k))) % P
+                chk.add('fe_op %s %s %s #0 #0 #0' % (nm('equal'), h32(a), h32(b)), 'fe_equal_one_limb_apart')
+                chk.add('fe_op %s %s %s #0 #0 #0' % (nm('cmp'), h32(a), h32(b)), 'fe_cmp_one_limb_apart')
     # x = 0 / sqrt of special values
     for v in (0, 1, 4, 7, P - 1, 2, 3, P - 7):
         chk.add('fe_op %s %s %s #0 #0 #0' % (nm('sqrt'), h32(v), h32(0)), 'fe_sqrt')
@@ -164,6 +176,18 @@ def gen(chk):
         chk.add('ge_set_all %s #1' % (''.join(pk_obj(q) for q in l) or '.'), 'ge_set_all_var')
         l2 = [q for q in l if q is not None]
         chk.add('ge_set_all %s #0' % (''.join(pk_obj(q) for q in l2) or '.'), 'ge_set_all')
+    # points whose x coordinates differ in exactly one limb (the equal-x test of the variable-time additions must not fire)
+    for w, nl in ((52, 5), (26, 10)):
+        for k in range(1, nl):
+            for tries in range(60):
+                A = mul(r.seckey(), G); c = 1 + r.below(200)
+                x2 = (A[0] + (c << (w * k))) % P
+                B2 = lift_x(x2)
+                if B2 is None or x2 >= P: continue
+                for Bp in (B2, neg(B2)):
+                    for op in ('add_var', 'add_ge_var', 'add_ge', 'add_zinv_var'):
+                        chk.add('ge_op %s %s %s %s %s #0' % (nm(op), pk_obj(A), pk_obj(Bp), h32(zval() or 1), h32(zval() or 1)), 'ge_' + op + '_x_one_limb_apart')
+                break
     # ---- scalar multiplication ----
     kvals = [0, 1, 2, N - 1, N - 2, N, (1 << 128), (1 << 128) - 1, (1 << 127), LAMBDA, N - LAMBDA, (1 << 255), N // 2, N // 2 + 1,
              0xe4437ed6010e88286f547fa90abfe4c3, 0x3086d221a7d46bcde86c90e49284eb15]
